@@ -239,7 +239,23 @@ def run(ctx):
                         x = bytearray(a); x[off + ln // 2] ^= 0x08
                         dcases = [(iname, init, lim, 0) for iname, init in inits(a, b, pb) if iname != "B" and iname != "A" for lim in (limits if thorough else [-1])]
                         jobs.append(("%s:%s:flip%d" % (aw, ca.name(), j), bytes(x), "%s:%s" % (bw, cb.name()), b, dcases))
-    ctx.bounds = {"words": "<= 3 letters over %s (and the empty content)" % alpha, "pairs": npairs, "configurations": [c[0] for c in combos],
+    # long new files whose missing chunks alternate with reusable ones: several requests, each with several ranges, when the
+    # number of ranges is limited (the server answers every multipart request with a boundary of its own)
+    lwords = ["ababababa", "babababab", "abcbdbcba"] + (["acbcacbcacbc", "abababababababab"] if thorough else [])
+    lsrc = ["a", "ac"]
+    lspecs = [(w, c) for c in (combos[0][1], combos[1][1]) for w in lwords + lsrc]
+    lfiles = dict(zip([(w, c.name()) for w, c in lspecs], universe.lib_files(lspecs, ctx.seed)))
+    for c in (combos[0][1], combos[1][1]):
+        for bw in lwords:
+            b = lfiles[(bw, c.name())]
+            pb = zckref.parse(b)
+            for aw in [None] + lsrc:
+                a = lfiles[(aw, c.name())] if aw is not None else None
+                cases = [(iname, init, lim, style) for iname, init in inits(a, b, pb) if iname in ("absent", "garbage", "B-zero3", "B-cut-last")
+                         for lim in (1, 2, 3, -1) for style in (0, 1)]
+                jobs.append(("%s:%s" % (aw, c.name()) if aw is not None else "absent", a, "%s:%s" % (bw, c.name()), b, cases))
+                npairs += 1
+    ctx.bounds = {"long_words": lwords, "words": "<= 3 letters over %s (and the empty content)" % alpha, "pairs": npairs, "configurations": [c[0] for c in combos],
                   "limits": limits, "initial_targets": "absent, A, B, B with each chunk zeroed, garbage, B+50 bytes, B cut in the last chunk, header only"}
     ctx.rule = "case = (old file, new file, limit, spelling, initial target); non-trivial = run that reused some chunks and fetched others"
     for r in core.pmap(work, jobs):
